@@ -56,7 +56,7 @@ def transitions_in(tz, lo, hi):
     """naive-UTC instants in [lo, hi) where utcoffset / tzname / dst of the source zone change"""
     out = []
     t = lo
-    step = timedelta(days=7)
+    step = timedelta(days=2)          # the shortest offset period in the tz database is 6 days (Brazil 2000)
 
     def sig(x):
         a = x.replace(tzinfo=timezone.utc).astimezone(tz)
@@ -167,8 +167,15 @@ def classify(src, trans, inst, want):
             after = t.replace(tzinfo=timezone.utc).astimezone(src)
             if before.utcoffset() == after.utcoffset():
                 return "change_of_name_or_dst_without_offset_change"
-            if d < abs((after.utcoffset() - before.utcoffset()).total_seconds()) + 1:
-                return "onset_written_in_the_new_offset"
+            pass
+    for t in trans:
+        d = (inst - t).total_seconds()
+        before = (t - timedelta(seconds=1)).replace(tzinfo=timezone.utc).astimezone(src)
+        after = t.replace(tzinfo=timezone.utc).astimezone(src)
+        jump = abs((after.utcoffset() - before.utcoffset()).total_seconds())
+        # the generated onset is off by the size of the jump: too late when the clock goes forward, too early when it goes back
+        if jump and -jump - 1 <= d < jump + 1:
+            return "onset_written_in_the_new_offset"
     return None
 
 
